@@ -128,3 +128,59 @@ package bondmachine
 //@   loop 1: invariant e0: sc.GetAll ==> old(sc.GetAll) || (exists k int :: k < $i && activeCfg(s, k, "get_all"))
 //@   loop 1: invariant f1: forall k int :: k < $i && activeCfg(s, k, "get_all_internal") ==> sc.GetAllInternal
 //@   loop 1: invariant f0: sc.GetAllInternal ==> old(sc.GetAllInternal) || (exists k int :: k < $i && activeCfg(s, k, "get_all_internal"))
+
+// ---- VM.Init establishes what Step relies on (C02) and resolves the per-opcode delay models by exact name (C09) ----
+
+//@ props C02 C09
+
+// an emulation driver initialises its own device state only (assumed)
+//@ interface EmuDriver method Init() error
+//@   assigns nothing
+//@   trusted
+
+//@ func (vm *VM) Init() error
+//@   requires vm != nil && vm.Bmach != nil && vm.Bmach.Inputs >= 0 && vm.Bmach.Outputs >= 0
+//@   requires forall c int :: 0 <= c && c < len(vm.Bmach.Processors) ==> 0 <= vm.Bmach.Processors[c] && vm.Bmach.Processors[c] < len(vm.Bmach.Domains) && vm.Bmach.Domains[vm.Bmach.Processors[c]] != nil
+//@   requires forall d int, j int :: 0 <= d && d < len(vm.Bmach.Domains) && vm.Bmach.Domains[d] != nil && 0 <= j && j < len(vm.Bmach.Domains[d].Op) ==> vm.Bmach.Domains[d].Op[j] != nil
+//@   ensures shapes: result == nil ==>
+//@             len(vm.Internal_inputs_regs) == len(vm.Bmach.Internal_inputs) && len(vm.InternalInputsValid) == len(vm.Bmach.Internal_inputs) && len(vm.InternalInputsRecv) == len(vm.Bmach.Internal_inputs) &&
+//@             len(vm.Internal_outputs_regs) == len(vm.Bmach.Internal_outputs) && len(vm.InternalOutputsValid) == len(vm.Bmach.Internal_outputs) && len(vm.InternalOutputsRecv) == len(vm.Bmach.Internal_outputs) &&
+//@             len(vm.Inputs_regs) == vm.Bmach.Inputs && len(vm.Outputs_regs) == vm.Bmach.Outputs && len(vm.Processors) == len(vm.Bmach.Processors)
+//@   ensures separate: result == nil && vm.Bmach.Inputs > 0 && vm.Bmach.Outputs > 0 && len(vm.Bmach.Internal_inputs) > 0 && len(vm.Bmach.Internal_outputs) > 0 ==> sepSim(vm)
+//@   ensures machine_kept: vm.Bmach == old(vm.Bmach)
+//@   ensures procs: result == nil ==> forall c int :: 0 <= c && c < len(vm.Bmach.Processors) ==> vm.Processors[c] != nil && fresh(vm.Processors[c]) &&
+//@             vm.Processors[c].Mach == vm.Bmach.Domains[vm.Bmach.Processors[c]]
+//@   ensures delays: result == nil && vm.SimDelayMap != nil ==> forall c int :: 0 <= c && c < len(vm.Bmach.Processors) ==>
+//@             len(vm.Processors[c].SimDelayArray) == len(vm.Processors[c].Mach.Op) &&
+//@             (forall j int :: 0 <= j && j < len(vm.Processors[c].Mach.Op) ==>
+//@               ((vm.Processors[c].SimDelayArray[j] != nil) == haskey(vm.SimDelayMap.OpcodeDelays, vm.Processors[c].Mach.Op[j].Op_get_name())))
+//@   assigns vm.*
+//@   frameonly
+//@   loop 1: modifies nothing
+//@   loop 2: modifies vm.Processors[*]
+//@   loop 2: invariant shape: len(vm.Processors) == len(vm.Bmach.Processors) && fresh(vm.Processors)
+//@   loop 2: invariant made: forall c int :: 0 <= c && c < $i ==> vm.Processors[c] != nil && fresh(vm.Processors[c]) && vm.Processors[c].Mach == vm.Bmach.Domains[vm.Bmach.Processors[c]]
+//@   loop 2: invariant delays: vm.SimDelayMap != nil ==> forall c int :: 0 <= c && c < $i ==>
+//@             len(vm.Processors[c].SimDelayArray) == len(vm.Processors[c].Mach.Op) && fresh(vm.Processors[c].SimDelayArray) &&
+//@             (forall j int :: 0 <= j && j < len(vm.Processors[c].Mach.Op) ==>
+//@               ((vm.Processors[c].SimDelayArray[j] != nil) == haskey(vm.SimDelayMap.OpcodeDelays, vm.Processors[c].Mach.Op[j].Op_get_name())))
+//@   loop 3: modifies pvm.SimDelayArray[*]
+//@   loop 3: invariant looked_up: forall k int :: 0 <= k && k < $i ==>
+//@             ((pvm.SimDelayArray[k] != nil) == haskey(vm.SimDelayMap.OpcodeDelays, pvm.Mach.Op[k].Op_get_name()))
+//@   loop 4: modifies vm.send_chans[*], vm.result_chans[*], vm.wait_proc
+//@   loop 5: modifies vm.Inputs_regs[*]
+//@   loop 6: modifies vm.Outputs_regs[*]
+//@   loop 7: modifies vm.Internal_inputs_regs[*]
+//@   loop 8: modifies vm.Internal_outputs_regs[*]
+//@   loop 9: modifies vm.Inputs_regs[*]
+//@   loop 10: modifies vm.Outputs_regs[*]
+//@   loop 11: modifies vm.Internal_inputs_regs[*]
+//@   loop 12: modifies vm.Internal_outputs_regs[*]
+//@   loop 13: modifies vm.Inputs_regs[*]
+//@   loop 14: modifies vm.Outputs_regs[*]
+//@   loop 15: modifies vm.Internal_inputs_regs[*]
+//@   loop 16: modifies vm.Internal_outputs_regs[*]
+//@   loop 17: modifies vm.Inputs_regs[*]
+//@   loop 18: modifies vm.Outputs_regs[*]
+//@   loop 19: modifies vm.Internal_inputs_regs[*]
+//@   loop 20: modifies vm.Internal_outputs_regs[*]
